@@ -35,6 +35,9 @@ type Step struct {
 	Swallow bool   `json:"swallow,omitempty"` // parent ignores the child's error and goes on
 	Recover bool   `json:"recover,omitempty"` // parent recovers the child's panic and goes on
 	Name    string `json:"name,omitempty"`
+	// Via: the write/read goes through a handle derived from the block's tx:
+	// "" the tx itself, session, newdb, prepare (Session{PrepareStmt:true}), ctx (WithContext), debug, skiphooks
+	Via string `json:"via,omitempty"`
 }
 
 type Block struct {
@@ -84,10 +87,40 @@ type gen struct {
 	keys   []string
 }
 
+var vias = []string{"session", "newdb", "prepare", "prepare", "ctx", "debug", "skiphooks"}
+
+func (g *gen) via() string {
+	if g.r.Chance(25) {
+		return g.r.Pick(vias)
+	}
+	return ""
+}
+
+// derive returns the handle a step runs on.
+func derive(tx *gorm.DB, via string) *gorm.DB {
+	switch via {
+	case "session":
+		return tx.Session(&gorm.Session{})
+	case "newdb":
+		return tx.Session(&gorm.Session{NewDB: true})
+	case "prepare":
+		return tx.Session(&gorm.Session{PrepareStmt: true})
+	case "ctx":
+		return tx.WithContext(context.WithValue(context.Background(), viaKey{}, "step"))
+	case "debug":
+		return tx.Debug()
+	case "skiphooks":
+		return tx.Session(&gorm.Session{SkipHooks: true})
+	}
+	return tx
+}
+
+type viaKey struct{}
+
 func (g *gen) write() Step {
 	g.n++
 	g.writes++
-	st := Step{Kind: "write", V: fmt.Sprintf("v%d", g.n)}
+	st := Step{Kind: "write", V: fmt.Sprintf("v%d", g.n), Via: g.via()}
 	switch x := g.r.Intn(10); {
 	case x < 5 || len(g.keys) == 0:
 		st.Op, st.K = "insert", fmt.Sprintf("k%d", g.n)
@@ -121,11 +154,11 @@ func (g *gen) block(depth int) *Block {
 		case x < 5 && g.writes < 30:
 			b.Steps = append(b.Steps, g.write())
 		case x < 7:
-			b.Steps = append(b.Steps, Step{Kind: "read"})
+			b.Steps = append(b.Steps, Step{Kind: "read", Via: g.via()})
 		case depth < 4 && g.blocks < 12:
 			b.Steps = append(b.Steps, Step{Kind: "child", Child: g.block(depth + 1), Swallow: g.r.Chance(60), Recover: g.r.Chance(50)})
 		default:
-			b.Steps = append(b.Steps, Step{Kind: "read"})
+			b.Steps = append(b.Steps, Step{Kind: "read", Via: g.via()})
 		}
 	}
 	return b
@@ -147,7 +180,7 @@ func (Prop) Gen(r *core.Rand, tier string) interface{} {
 			case x < 5:
 				c.Manual = append(c.Manual, g.write())
 			case x < 6:
-				c.Manual = append(c.Manual, Step{Kind: "read"})
+				c.Manual = append(c.Manual, Step{Kind: "read", Via: g.via()})
 			case x < 8:
 				c.Manual = append(c.Manual, Step{Kind: "savepoint", Name: r.Pick(names)})
 			default:
@@ -396,6 +429,7 @@ func (r *run) cfgKey() string {
 
 // write executes one write step through tx and advances the model.
 func (r *run) write(tx *gorm.DB, st Step, where string) error {
+	tx = derive(tx, st.Via)
 	snap := r.snapshot()
 	var res *gorm.DB
 	switch st.Op {
@@ -470,7 +504,10 @@ func (r *run) write(tx *gorm.DB, st Step, where string) error {
 }
 
 // read checks that the block sees exactly the model's current state.
-func (r *run) read(tx *gorm.DB, where string) error {
+func (r *run) read(tx *gorm.DB, where string) error { return r.readVia(tx, "", where) }
+
+func (r *run) readVia(tx *gorm.DB, via, where string) error {
+	tx = derive(tx, via)
 	snap := r.snapshot()
 	var kvs []fam.KV
 	res := tx.Order("k").Find(&kvs)
@@ -504,7 +541,7 @@ func (r *run) body(tx *gorm.DB, b *Block, depth int, path string) error {
 				return err
 			}
 		case "read":
-			if err := r.read(tx, where); err != nil {
+			if err := r.readVia(tx, st.Via, where); err != nil {
 				return err
 			}
 		case "child":
@@ -676,7 +713,7 @@ func (r *run) manual(db *gorm.DB) {
 				return
 			}
 		case "read":
-			if r.read(tx, where) != nil {
+			if r.readVia(tx, st.Via, where) != nil {
 				abort()
 				return
 			}
